@@ -73,6 +73,28 @@ fn cps(s: &str) -> Vec<u32> {
     s.chars().map(|c| c as u32).collect()
 }
 
+thread_local! {
+    /// relationship type names of the database the current case runs on (id -> name)
+    static REL_NAMES: std::cell::RefCell<std::collections::HashMap<u32, String>> = std::cell::RefCell::new(Default::default());
+}
+
+fn rel_name(id: u32) -> String {
+    REL_NAMES.with(|m| m.borrow().get(&id).cloned()).unwrap_or_else(|| format!("#{id}"))
+}
+
+pub fn learn_rel_names(db: &Db) {
+    let snap = db.snapshot();
+    REL_NAMES.with(|m| {
+        let mut m = m.borrow_mut();
+        m.clear();
+        for id in 0..64u32 {
+            if let Some(n) = snap.resolve_rel_type_name(id) {
+                m.insert(id, n);
+            }
+        }
+    });
+}
+
 /// (tagged value, canonical string)
 pub fn tv(v: &Value) -> (J, String) {
     match v {
@@ -98,9 +120,9 @@ pub fn tv(v: &Value) -> (J, String) {
         Value::NodeId(id) => (json!(["node", id]), format!("n{id}")),
         Value::Node(n) => (json!(["node", n.id]), format!("n{}", n.id)),
         Value::ExternalId(x) => (json!(["other", format!("ext:{x}")]), format!("x{x}")),
-        Value::EdgeKey(e) => (json!(["rel", [e.src, e.rel, e.dst]]), format!("r{}:{}:{}", e.src, e.rel, e.dst)),
+        Value::EdgeKey(e) => (json!(["rel", [e.src, rel_name(e.rel), e.dst]]), format!("r{}:{}:{}", e.src, e.rel, e.dst)),
         Value::Relationship(r) => (
-            json!(["rel", [r.key.src, r.key.rel, r.key.dst]]),
+            json!(["rel", [r.key.src, r.rel_type.clone(), r.key.dst]]),
             format!("r{}:{}:{}", r.key.src, r.key.rel, r.key.dst),
         ),
         Value::DateTime(d) => (json!(["other", format!("datetime:{d}")]), format!("D{d}")),
@@ -365,7 +387,7 @@ pub fn graph_dump(db: &Db) -> J {
                         props.push(json!([k, tvv, c]));
                     }
                 }
-                rels.push(json!({"src": e.src, "type": t, "dst": e.dst, "props": props}));
+                rels.push(json!({"src": e.src, "type": t, "tcp": cps(&t), "dst": e.dst, "props": props}));
             }
         }
         let mut inn = Vec::new();
@@ -429,6 +451,7 @@ pub fn run_sessions(sessions: &[J], out: &mut dyn Write, scratch: &Path) -> J {
             let (p, echo) = build_params(&c);
             let q = c["query"].as_str().unwrap_or("");
             let mode = c["mode"].as_str().unwrap_or("read");
+            learn_rel_names(&db);
             let o = if mode == "write" { run_write(&db, q, &p) } else { run_read(&db, q, &p) };
             n_cases += 1;
             if o.out != "rows" {
